@@ -74,9 +74,10 @@ Proof. exact ex1_nontrivial. Qed.
      (hidden_data), then b may use any quiet flag (lemma quiet_frame); batches nested below the server's limit;
    * ev_clean o -- what o itself sends: the SUBSCRIBE: fields of each of its Messages have distinct non-empty paths, the
      keys of an explicit GETDATA are subscriptions it holds at that moment (same path, same filter: cmd_covered, threaded
-     through a BATCH; lemma getdata_covered_J), and an unsubscribe is a Message of its own or sits in the tail of a BATCH:
-     once o has unsubscribed inside a BATCH only unsubscribes, SETDATA, REMOVEDATA and max-items changes follow in that BATCH
-     (the client prunes once, after the BATCH; lemmas tail_fold, prune_J, batch_tail_world_J).
+     through a BATCH; lemma getdata_covered_J), and an unsubscribe is a Message of its own or sits at the head and / or in
+     the tail of a BATCH (head ++ middle ++ tail: head and tail hold unsubscribes, own SETDATA / REMOVEDATA and max-items
+     changes only, the middle no unsubscribe; the client prunes once, after the BATCH; lemmas tail_fold, prune_J,
+     batch_general_world_J).
    Client-mirror rule: Refl/Mirror.v (removals first, then sets; on its own unsubscribe the client drops what its
    remaining subscriptions no longer cover).
    Conclusion, at the quiescent point after ANY such history (any number of sessions coming and going, creation,
@@ -85,7 +86,7 @@ Proof. exact ex1_nontrivial. Qed.
    own nodes exactly the node's current payload if one of o's subscriptions (path and filter) accepts it, and nothing
    otherwise -- none missing, none stale, none extra.
    FULL statement not yet proved: quiet set/remove on nodes the observer's subscription paths do reach (the statement would
-   then be restricted to the nodes whose last change was announced), a SUBSCRIBE: or GETDATA after an unsubscribe inside
+   then be restricted to the nodes whose last change was announced), a SUBSCRIBE: or GETDATA between two unsubscribes of
    one BATCH of the observer, reflect-to-self, ordered indices. *)
 Theorem C04_mirror_converges_partial :
   forall (M : MatchOps) (L : MatchLaws M) (fx : fixes),
@@ -190,3 +191,13 @@ Example C04_mirror_batch_unsubscribe_nontrivial :
   /\ option_map (fun c => length (c_mirror c)) (find (fun c => N.eqb (c_id c) 0%N) (w_clients (world_run all_fixed (firstn 4 exb) empty_world))) = Some 2%nat
   /\ option_map (fun c => length (c_mirror c)) (find (fun c => N.eqb (c_id c) 0%N) (w_clients (world_run all_fixed exb empty_world))) = Some 1%nat.
 Proof. exact exb_nontrivial. Qed.
+(* ... and the other order (unsubscribe the old one, SUBSCRIBE: the new one, unsubscribe one more) *)
+Example C04_mirror_premises_satisfiable_batch_unsubscribe_first : premises_b all_fixed exu 0%N = true.
+Proof. exact exu_premises. Qed.
+Example C04_mirror_batch_unsubscribe_first_nontrivial :
+  holds_at (world_run all_fixed exu empty_world) 0%N (1 :: 11 :: 21 :: nil)%N = true
+  /\ holds_at (world_run all_fixed exu empty_world) 0%N (1 :: 11 :: 22 :: nil)%N = true
+  /\ holds_at (world_run all_fixed exu empty_world) 0%N (1 :: 11 :: 23 :: nil)%N = true
+  /\ option_map (fun c => length (c_mirror c)) (find (fun c => N.eqb (c_id c) 0%N) (w_clients (world_run all_fixed (firstn 4 exu) empty_world))) = Some 3%nat
+  /\ option_map (fun c => length (c_mirror c)) (find (fun c => N.eqb (c_id c) 0%N) (w_clients (world_run all_fixed exu empty_world))) = Some 1%nat.
+Proof. exact exu_nontrivial. Qed.
